@@ -651,7 +651,9 @@ Section FormatNumber.
       else if sv_number_type vars =? 2 then fmul value f_1000
       else value in
     lbind
-      (if negb (sv_min_exponent_size vars =? 0) then
+      (if negb (sv_min_exponent_size vars =? 0) && negb (feqb value fzero) then
+         (* the magnitude is scaled; zero is not scaled at all (repaired in /repo f28523c) *)
+         let value := fabs value in
          let maxMantissa := go_pow10 (sv_scaling_factor vars) in
          let minMantissa := go_pow10 (sv_scaling_factor vars - 1) in
          match scale_up fuel value minMantissa 0 with
